@@ -71,6 +71,8 @@ type c42Case struct {
 	Streamed        bool
 	Frame           int // remoteReadMaxBytesInFrame
 	SeekAt          int64
+	SubMint         int64 // narrower range given to the client-side chunked series set (clamped into the query range)
+	SubMaxt         int64
 }
 
 // External label names are disjoint from the series label alphabet (the handler's
@@ -204,6 +206,11 @@ func genC42(t *rapid.T) c42Case {
 		}
 		q.Hints = rapid.IntRange(0, 3).Draw(t, "hints") == 0
 		c.Queries = append(c.Queries, q)
+	}
+	c.SubMint = genC42Time(t, "submint", horizon, anchors)
+	c.SubMaxt = genC42Time(t, "submaxt", horizon, anchors)
+	if c.SubMaxt < c.SubMint {
+		c.SubMint, c.SubMaxt = c.SubMaxt, c.SubMint
 	}
 	c.SeekAt = genC42Time(t, "seek", horizon, anchors)
 	if c.SeekAt == math.MinInt64 {
@@ -348,7 +355,20 @@ func c42Build(c c42Case, dir string) (*tsdb.DB, error) {
 	}
 	if c.OOOWindow {
 		for si, s := range c.Series {
+			// Two stored samples with one timestamp (in-order + out-of-order) make the sample
+			// querier and the chunk querier pick either value; that ambiguity is the TSDB's, not
+			// remote read's, so out-of-order timestamps never repeat a timestamp of the series.
+			used := map[int64]bool{}
+			ts := s.Start
+			for _, st := range s.Steps {
+				ts += st
+				used[ts] = true
+			}
 			for j, t := range s.OOO {
+				if used[t] {
+					continue
+				}
+				used[t] = true
 				app := db.Appender(context.Background())
 				// errors (too old, duplicate timestamp with another value) are fine: rejected
 				// samples are simply not part of the stored data
@@ -856,6 +876,34 @@ func runC42(c c42Case, r *ev.Rec) error {
 			full := map[string][]c42Pt{}
 			for _, g := range exps[0].merged {
 				full[gen.FromLabels(g.l).Key()] = g.pts
+			}
+			// The client-side set trims to the range it is given: a server may send whole chunks
+			// (other remote-read servers do), so give it a narrower range than the one queried.
+			subMint, subMaxt := max(c.SubMint, q.Mint), min(c.SubMaxt, q.Maxt)
+			if subMint <= subMaxt {
+				var wantSub []c42Got
+				for _, g := range exps[0].merged {
+					var pts []c42Pt
+					for _, p := range g.pts {
+						if p.t >= subMint && p.t <= subMaxt {
+							pts = append(pts, p)
+						}
+					}
+					if len(pts) > 0 {
+						wantSub = append(wantSub, c42Got{l: g.l, pts: pts})
+					}
+				}
+				gotSub, err := c42ReadSet(promremote.NewChunkedSeriesSet(promremote.NewChunkedReader(bytes.NewReader(body), config.DefaultChunkedReadLimit, nil), io.NopCloser(bytes.NewReader(nil)), subMint, subMaxt, func(error) {}))
+				whereSub := fmt.Sprintf("NewChunkedSeriesSet over range [%d,%d] of the response to query %+v", subMint, subMaxt, q)
+				if err != nil {
+					return ev.Failf("%s: %v", whereSub, err)
+				}
+				if _, err := c42CmpSets(whereSub, wantSub, gotSub, exactStream, true, nil); err != nil {
+					return err
+				}
+				if subMint > q.Mint || subMaxt < q.Maxt {
+					r.Class("client-trims-subrange")
+				}
 			}
 			if extra == 0 {
 				if err := c42Seek(where, mk(), full, c.SeekAt, exactStream); err != nil {
